@@ -270,10 +270,14 @@ RETCODE adfUndelFile ( struct AdfVolume *        vol,
         return RC_ERROR;
     }
 
+    if ( ! adfIsBlockFree ( vol, entry->headerKey ) )
+        return RC_ERROR;
+
     rc = adfGetFileBlocks ( vol, entry, &fileBlocks );
     if ( rc != RC_OK )
         return rc;
 
+    adfSetBlockUsed ( vol, entry->headerKey );
     for(i=0; i<fileBlocks.nbData; i++)
         if ( !adfIsBlockFree(vol,fileBlocks.data[i]) )
             return RC_ERROR;
